@@ -1524,8 +1524,42 @@ class Builder:
         self.stack.pop()
         self.dangling = [(head, 'done')]
 
+    def _lambda_called(self, e: ast.Call, frame):
+        """(lambda, frame it was written in) when the call is `p()` for a
+        parameter p of an inlined function that was given a parameterless
+        lambda (a deferred expression: `run(lambda: sender.send(io))`)"""
+        f = e.func
+        if not isinstance(f, ast.Name) or e.args or e.keywords:
+            return None
+        fr, depth = frame, 0
+        name = f.id
+        while depth < 4 and name in getattr(fr, 'arg_exprs', {}) and \
+                name in fr.ctx.func.params:
+            from .model import walk_own
+            if any(isinstance(x, ast.Name) and x.id == name and
+                   isinstance(x.ctx, (ast.Store, ast.Del))
+                   for x in walk_own(fr.ctx.func.node)):
+                return None
+            x, xf = fr.arg_exprs[name]
+            if isinstance(x, ast.Lambda):
+                a = x.args
+                if a.args or a.posonlyargs or a.kwonlyargs or a.vararg or \
+                        a.kwarg:
+                    return None
+                return x, xf
+            if not isinstance(x, ast.Name):
+                return None
+            name, fr = x.id, xf
+            depth += 1
+        return None
+
     def _call(self, e: ast.Call, frame):
         ctx = frame.ctx
+        lam = self._lambda_called(e, frame)
+        if lam is not None:
+            # the body of the lambda runs here, in the scope it closes over
+            self._expr(lam[0].body, lam[1])
+            return
         # evaluation order: callee expression, positional, keywords
         self._expr(e.func, frame)
         for a in e.args:
